@@ -10,6 +10,7 @@ package main
 // scheduler-stall detector turns stalled cases into "inconclusive".
 
 import (
+	"bytes"
 	"context"
 	"fmt"
 	"sync"
@@ -31,14 +32,27 @@ type c09Case struct {
 	Observer string        `json:"observer"` // Get GetPut Incr NX XX Expire
 	ObsPath  string        `json:"obs_path"`
 	TTL      time.Duration `json:"ttl"`
+	DMap     string        `json:"dmap,omitempty"`    // "" = DMap without a default TTL; otherwise one of the default-TTL DMaps with an EXPLICIT expiry on the request
+	History  bool          `json:"history,omitempty"` // the key had an older version (no expiry) and its fragments rolled over to new tables before it was stored
 }
 
 func (c c09Case) ID() string {
-	return fmt.Sprintf("form=%s|set=%s|observer=%s|via=%s|ttl=%v", c.Form, c.SetPath, c.Observer, c.ObsPath, c.TTL)
+	id := fmt.Sprintf("form=%s|set=%s|observer=%s|via=%s|ttl=%v", c.Form, c.SetPath, c.Observer, c.ObsPath, c.TTL)
+	if c.DMap != "" {
+		id += "|dmap=" + c.DMap
+	}
+	if c.History {
+		id += "|older-version-in-older-table"
+	}
+	return id
 }
 
 const c09DefaultTTLDMap = "c09-default-ttl"
 const c09DefaultTTL = 700 * time.Millisecond
+
+// DMaps with a default TTL on which the requests carry their own, different expiry
+const c09LongDefaultDMap = "c09-default-1h"
+const c09ShortDefaultDMap = "c09-default-300ms"
 
 func c09Cases(kinds []string) []c09Case {
 	forms := []string{"EX", "PX", "EXAT", "PXAT", "DEFAULT", "EXPIRE", "PEXPIRE"}
@@ -67,6 +81,47 @@ func c09Cases(kinds []string) []c09Case {
 			}
 		}
 	}
+	// explicit expiry on a DMap that has a default TTL: the explicit one decides
+	for _, f := range []string{"EX", "PX", "EXAT", "PXAT", "EXPIRE", "PEXPIRE"} {
+		for _, ob := range observers {
+			for _, dm := range []string{c09LongDefaultDMap, c09ShortDefaultDMap} {
+				if dm == c09ShortDefaultDMap && (f == "EXPIRE" || f == "PEXPIRE") {
+					continue // the key could expire by the default before Expire arrives
+				}
+				c := c09Case{Form: f, SetPath: kinds[i%len(kinds)], Observer: ob, ObsPath: kinds[(i/2)%len(kinds)], TTL: ttls[i%3], DMap: dm}
+				if f == "EXPIRE" {
+					c.TTL = time.Second
+				}
+				if f == "PEXPIRE" && c.TTL%time.Second == 0 {
+					c.TTL = 700 * time.Millisecond
+				}
+				cs = append(cs, c)
+				i++
+			}
+		}
+	}
+	return cs
+}
+
+// c09HistoryCases: every key has an older version without expiry that lies in an older table of its fragments
+func c09HistoryCases(kinds []string) []c09Case {
+	var cs []c09Case
+	i := 0
+	for _, f := range []string{"PX", "EXPIRE", "EXAT", "DEFAULT"} {
+		for _, sp := range kinds {
+			for _, ob := range []string{"Get", "GetPut", "Incr", "NX", "XX", "Expire"} {
+				c := c09Case{Form: f, SetPath: sp, Observer: ob, ObsPath: kinds[(i/2)%len(kinds)], TTL: []time.Duration{400 * time.Millisecond, 700 * time.Millisecond}[i%2], History: true}
+				if f == "EXPIRE" {
+					c.TTL = time.Second
+				}
+				if f == "DEFAULT" {
+					c.TTL = c09DefaultTTL
+				}
+				cs = append(cs, c)
+				i++
+			}
+		}
+	}
 	return cs
 }
 
@@ -86,6 +141,9 @@ func (e *c09Env) run(cs c09Case) {
 	if cs.Form == "DEFAULT" {
 		dmap = c09DefaultTTLDMap
 	}
+	if cs.DMap != "" {
+		dmap = cs.DMap
+	}
 	e.mu.Lock()
 	e.seq++
 	key := fmt.Sprintf("k-%d", e.seq)
@@ -95,8 +153,21 @@ func (e *c09Env) run(cs c09Case) {
 	defer sess.Close()
 	defer r.Close()
 	set := sess.Via(cs.SetPath)
-	stalled := e.stall.window()
 	value := []byte("5")
+	if cs.History {
+		// an older version of the key, then enough other data that the fragments (primary and backup) of this key
+		// roll over to new tables
+		if err := sess.Via("EO").Put(bg, key, []byte("7"), paths.PutOpts{}); err != nil {
+			e.ctx.rep.Inconclusive(cs.ID() + ": older version: " + err.Error())
+			return
+		}
+		fill := bytes.Repeat([]byte("f"), 300)
+		for j := 0; j < 3*int(e.c.Cfg.Partitions)*int(e.c.Cfg.TableSize)/300/2+8; j++ {
+			_ = sess.Via("EO").Put(bg, fmt.Sprintf("fill-%s-%d", key, j), fill, paths.PutOpts{PX: 50 * time.Millisecond})
+		}
+		e.ctx.rep.Count("history_cases_prepared", 1)
+	}
+	stalled := e.stall.window()
 
 	var o paths.PutOpts
 	var err error
@@ -228,13 +299,39 @@ func (e *c09Env) run(cs c09Case) {
 	if bad {
 		e.ctx.rep.Violate(fmt.Sprintf("c09|after-deadline|observer=%s|%s", cs.Observer, label),
 			fmt.Sprintf("%s %s: %s at [%v,%v] although the key expired at %v", cs.ID(), label, what, a0.Sub(t0), a1.Sub(t0), deadline.Sub(t0)), map[string]interface{}{"case": cs, "observed": what, "evicted": evicted == false})
+		return
+	}
+	if cs.History && cs.Observer == "Get" {
+		// once more when the background eviction has certainly removed the key
+		gone := false
+		for i := 0; i < 300 && !gone; i++ {
+			_, there := owner.V.DMap.VerifEntry(partitions.PRIMARY, dmap, key)
+			gone = !there
+			if !gone {
+				time.Sleep(10 * time.Millisecond)
+			}
+		}
+		if !gone {
+			e.ctx.rep.Count("history_cases_never_evicted", 1)
+			return
+		}
+		for _, k := range []string{cs.ObsPath, "EO", "RN"} {
+			g, err := sess.Via(k).Get(bg, key)
+			e.ctx.rep.Count("observations_after_eviction_with_history", 1)
+			if paths.Class(err) != "key not found" {
+				e.ctx.rep.Violate("c09|after-deadline|observer=Get|evicted=yes|older-version-came-back",
+					fmt.Sprintf("%s: after the key had expired and the background eviction had removed it, Get via %s returned (%q,%v); an older version of the key had been written earlier", cs.ID(), k, g.Value, paths.Class(err)),
+					map[string]interface{}{"case": cs, "observed": string(g.Value)})
+				return
+			}
+		}
 	}
 }
 
 // sequence checks of the expiry bookkeeping: plain Put / GetPut clear it, Incr / Decr keep it, Expire replaces it and keeps the value
-func (e *c09Env) bookkeeping(kind string) {
+func (e *c09Env) bookkeeping(kind string, dmap string) {
 	bg := context.Background()
-	r := paths.NewRouter(e.c, "c09-book")
+	r := paths.NewRouter(e.c, dmap)
 	defer r.Close()
 	sess := r.NewSession()
 	defer sess.Close()
@@ -244,14 +341,21 @@ func (e *c09Env) bookkeeping(kind string) {
 	key := fmt.Sprintf("b-%d", e.seq)
 	e.mu.Unlock()
 	ttlOf := func() int64 {
-		ent, _ := e.c.OwnerOf("c09-book", key).V.DMap.VerifEntry(partitions.PRIMARY, "c09-book", key)
+		ent, _ := e.c.OwnerOf(dmap, key).V.DMap.VerifEntry(partitions.PRIMARY, dmap, key)
 		return ent.TTL
 	}
 	fail := func(step, detail string) {
-		e.ctx.rep.Violate("c09|bookkeeping|"+step+"|path="+kind, "key "+key+" via "+kind+": "+detail, map[string]interface{}{"key": key, "path": kind})
+		e.ctx.rep.Violate("c09|bookkeeping|"+step+"|path="+kind+"|dmap="+dmap, "key "+key+" via "+kind+" on DMap "+dmap+": "+detail, map[string]interface{}{"key": key, "path": kind})
+	}
+	// what a write without an expiry of its own leaves behind: nothing, or the DMap's default TTL
+	cleared := func(a, b time.Time, t int64) bool {
+		if dmap == c09LongDefaultDMap {
+			return t >= a.Add(time.Hour).UnixMilli()-2 && t <= b.Add(time.Hour).UnixMilli()+2
+		}
+		return t == 0
 	}
 	e.ctx.rep.Eval(1)
-	e.ctx.rep.Distinct("bookkeeping|" + kind)
+	e.ctx.rep.Distinct("bookkeeping|" + kind + "|" + dmap)
 	if err := cl.Put(bg, key, []byte("10"), paths.PutOpts{PX: 60 * time.Second}); err != nil {
 		return
 	}
@@ -284,29 +388,34 @@ func (e *c09Env) bookkeeping(kind string) {
 		fail("Expire-changed-value", fmt.Sprintf("value after Expire reads (%q,%v), want 10", g.Value, err))
 		return
 	}
+	a = time.Now()
 	if err := cl.Put(bg, key, []byte("11"), paths.PutOpts{}); err != nil {
 		return
 	}
-	if t := ttlOf(); t != 0 {
-		fail("Put-kept-ttl", fmt.Sprintf("plain Put left expiry %d", t))
+	if t := ttlOf(); !cleared(a, time.Now(), t) {
+		fail("Put-kept-ttl", fmt.Sprintf("plain Put left expiry %d (now %d)", t, time.Now().UnixMilli()))
 		return
 	}
 	_ = cl.Expire(bg, key, 60*time.Second)
+	a = time.Now()
 	if _, _, err := cl.GetPut(bg, key, []byte("12")); err != nil {
 		return
 	}
-	if t := ttlOf(); t != 0 {
-		fail("GetPut-kept-ttl", fmt.Sprintf("GetPut left expiry %d", t))
+	if t := ttlOf(); !cleared(a, time.Now(), t) {
+		fail("GetPut-kept-ttl", fmt.Sprintf("GetPut left expiry %d (now %d)", t, time.Now().UnixMilli()))
 	}
 }
 
 func c09Child(ctx *runCtx, spec string) {
 	var n, r, workers, share, of int
 	var p uint64
-	fmt.Sscanf(spec, "N=%d R=%d P=%d workers=%d share=%d/%d", &n, &r, &p, &workers, &share, &of)
-	c, err := cluster.Start(cluster.Config{Replicas: r, Partitions: p, TableSize: 1 << 20, EvictionWorkers: int64(workers),
+	var ts uint64 = 1 << 20
+	var hist int
+	fmt.Sscanf(spec, "N=%d R=%d P=%d workers=%d share=%d/%d ts=%d hist=%d", &n, &r, &p, &workers, &share, &of, &ts, &hist)
+	c, err := cluster.Start(cluster.Config{Replicas: r, Partitions: p, TableSize: ts, EvictionWorkers: int64(workers),
 		DMaps: func(d *config.DMaps) {
-			d.Custom = map[string]config.DMap{c09DefaultTTLDMap: {TTLDuration: c09DefaultTTL}}
+			d.Custom = map[string]config.DMap{c09DefaultTTLDMap: {TTLDuration: c09DefaultTTL},
+				c09LongDefaultDMap: {TTLDuration: time.Hour}, c09ShortDefaultDMap: {TTLDuration: 300 * time.Millisecond}}
 		}}, n)
 	if err != nil {
 		ctx.rep.Inconclusive("cluster start: " + err.Error())
@@ -321,6 +430,9 @@ func c09Child(ctx *runCtx, spec string) {
 	}
 	fp := c.Fingerprint()
 	cases := c09Cases(kinds)
+	if hist == 1 {
+		cases = c09HistoryCases(kinds)
+	}
 	var wg sync.WaitGroup
 	sem := make(chan struct{}, 24)
 	for i, cs := range cases {
@@ -337,7 +449,8 @@ func c09Child(ctx *runCtx, spec string) {
 	}
 	wg.Wait()
 	for _, k := range kinds {
-		env.bookkeeping(k)
+		env.bookkeeping(k, "c09-book")
+		env.bookkeeping(k, c09LongDefaultDMap)
 	}
 	if c.Fingerprint() != fp {
 		if n := ctx.rep.DropViolations(); n > 0 {
@@ -359,11 +472,16 @@ func c09Run(ctx *runCtx) int {
 		batches = append(batches,
 			batch{Spec: "N=3 R=1 P=3 workers=8 share=0/2", Timeout: 10 * time.Minute},
 			batch{Spec: "N=3 R=2 P=271 workers=1 share=1/2", Timeout: 10 * time.Minute},
+			batch{Spec: "N=2 R=2 P=3 workers=8 share=0/1 ts=4096 hist=1", Timeout: 10 * time.Minute},
 		)
 	} else {
 		for _, s := range []string{"N=3 R=1 P=3 workers=8", "N=3 R=2 P=271 workers=1", "N=3 R=2 P=3 workers=8", "N=1 R=1 P=7 workers=2", "N=2 R=2 P=13 workers=1"} {
 			batches = append(batches, batch{Spec: s + " share=0/1", Timeout: 20 * time.Minute})
 		}
+		batches = append(batches,
+			batch{Spec: "N=2 R=2 P=3 workers=8 share=0/1 ts=4096 hist=1", Timeout: 20 * time.Minute},
+			batch{Spec: "N=3 R=2 P=7 workers=4 share=0/1 ts=8192 hist=1", Timeout: 20 * time.Minute},
+			batch{Spec: "N=3 R=1 P=3 workers=8 share=0/1 ts=4096 hist=1", Timeout: 20 * time.Minute})
 	}
 	runBatches(ctx, batches, 2, func(b batch, res batchResult, tail string) {
 		ctx.rep.Violate("c09|member-crashed-or-hung", fmt.Sprintf("child %s died (exit %d timeout=%v): %s", b.Spec, res.ExitCode, res.TimedOut, lastLines(tail, 12)), map[string]interface{}{"batch": b.Spec})
